@@ -31,7 +31,10 @@ _SCRATCH = None
 def scratch() -> Path:
     global _SCRATCH
     if _SCRATCH is None or not _SCRATCH.exists() or _SCRATCH.name.split("-")[-1] != str(os.getpid()):
-        base = "/dev/shm" if os.access("/dev/shm", os.W_OK) else tempfile.gettempdir()
+        # worker scratch lives under the run's scratch root (removed by the runner when the check ends: pool
+        # workers leave through os._exit and never run their own atexit handlers)
+        root = os.environ.get("NAUNET_VERIF_SCRATCH")
+        base = root if root and os.path.isdir(root) else ("/dev/shm" if os.access("/dev/shm", os.W_OK) else tempfile.gettempdir())
         _SCRATCH = Path(base) / f"naunet-verif-w-{os.getpid()}"
         _SCRATCH.mkdir(parents=True, exist_ok=True)
         import atexit
